@@ -29,7 +29,7 @@ VALUES = {
     "list": [1], "obj": {"a": 1}, "s-notdate": "not a date", "s-x": "x",
     # integers a double cannot represent: JSON integers are exact
     "obj-bool-null": {"enabled": True, "label": None, "n": [False]}, "list-bool-null": [None, True, "x"], "obj-nested": {"a": {"b": [1, {"c": None}]}},
-    "s-2p53+1": str(2 ** 53 + 1), "i-2p53+1": 2 ** 53 + 1, "i-int64max": 2 ** 63 - 1, "i-neg-big": -(2 ** 62) - 1, "i-1e20+1": 10 ** 20 + 1,
+    "s-None": "None", "s-null": "null", "s-2p53+1": str(2 ** 53 + 1), "i-2p53+1": 2 ** 53 + 1, "i-int64max": 2 ** 63 - 1, "i-neg-big": -(2 ** 62) - 1, "i-1e20+1": 10 ** 20 + 1,
 }
 V, I, L = "VALID", "INVALID", "LENIENT"
 D = datetime.date(2020, 1, 2)
@@ -118,6 +118,9 @@ def table(kind):
         put("f-1.5", L, None, None)
         put("b-true", L, None, None)
         put("list", L, None, None)
+    elif kind.startswith("nullable_str"):
+        for k in ("s-plain", "s-empty", "s-None", "s-null", "s-num", "s-true"):
+            put(k, V, VALUES[k])
     elif kind.startswith("union_"):
         for k in ("s-plain", "s-num", "s-float", "s-true", "s-date", "s-empty", "s-2p53+1"):
             put(k, V, VALUES[k])                  # a string is a valid instance of the string member: the default is that string
@@ -135,7 +138,9 @@ def table(kind):
 KINDS = ["str", "int", "num", "bool", "date", "datetime", "uuid", "enum_str", "enum_int", "const", "union", "any", "enum_ref",
          "enum_str_null", "enum_int_null", "enum_str_oneofnull",
          # unions whose plain string member is declared BEFORE a typed member: a string default stays the string it is
-         "union_str_int", "union_typelist_str_num", "union_str_bool", "union_str_date"]
+         "union_str_int", "union_typelist_str_num", "union_str_bool", "union_str_date", "nullable_str_nullfirst", "nullable_str_nulllast", "nullable_str_30",
+         # nullable strings, null named first / last: the STRINGS "None" and "null" are strings
+         "nullable_str_nullfirst", "nullable_str_nulllast", "nullable_str_30"]
 ENUM_VALUES = {"enum_str": ["a", "b"], "enum_ref": ["a", "b"], "enum_int": [1, -2]}
 
 
@@ -148,6 +153,12 @@ def _schema(kind, comps):
         return {"oneOf": [{"type": "string", "enum": ["a", "b"]}, {"type": "null"}]}
     if kind == "union":
         return {"oneOf": [{"type": "integer"}, {"type": "string"}]}
+    if kind == "nullable_str_nullfirst":
+        return {"type": ["null", "string"]}
+    if kind == "nullable_str_nulllast":
+        return {"oneOf": [{"type": "string"}, {"type": "null"}]}
+    if kind == "nullable_str_30":
+        return {"type": "string", "nullable": True}
     if kind == "union_str_int":
         return {"oneOf": [{"type": "string"}, {"type": "integer"}]}
     if kind == "union_typelist_str_num":
@@ -226,7 +237,7 @@ def _doc(kind, value, route, pos, lit, req="opt"):
             return gen.base_doc(comps or None, paths=paths, version="3.0.3" if route == "nullable30-wrapper" else "3.1.0")
         paths["/x"] = {"get": {"operationId": "theOp", "parameters": [{"name": "p", "in": pos, "required": False, "schema": sch}],
                                "responses": {"200": {"description": "d", "content": {"application/json": {"schema": {"$ref": "#/components/schemas/Out"}}}}}}}
-    return gen.base_doc(comps or None, paths=paths, version="3.0.3" if route == "nullable30-wrapper" else "3.1.0")
+    return gen.base_doc(comps or None, paths=paths, version="3.0.3" if route == "nullable30-wrapper" or kind == "nullable_str_30" else "3.1.0")
 
 
 PARAM_KINDS = {"str", "int", "num", "bool", "date", "datetime", "uuid", "enum_str", "enum_int", "enum_ref", "union", "any", "const",
@@ -246,11 +257,13 @@ def cases(tier):
                         continue
                     if route in ("ref-wrapper", "nullable30-wrapper") and kind in ("union", "any", "const", "enum_str_oneofnull", "enum_str_null", "enum_int_null"):
                         continue
+                    if kind.startswith("nullable_str") and (route != "direct" or (kind.endswith("30") and pos != "model")):
+                        continue
                     if kind.startswith("union_") and route in ("nullable30-wrapper", "allof-override", "allof-inherit"):
                         continue
                     if route == "second-use-of-enum-class" and (kind not in ("enum_str", "enum_int") or pos != "model"):
                         continue
-                    if route.startswith("allof-redescribed") and (kind in ("union", "any", "const") or kind.startswith("union_") or kind.endswith("null") or t[label][0] != V):
+                    if route.startswith("allof-redescribed") and (kind in ("union", "any", "const") or kind.startswith(("union_", "nullable_str")) or kind.endswith("null") or t[label][0] != V):
                         continue
                     for lit in ((False, True) if kind.startswith("enum") else (False,)):
                         if _doc(kind, VALUES[label], route, pos, lit) is None:
